@@ -31,6 +31,9 @@ def run(prog, R, tier="quick", only_rule=None):
     c15b(prog, R)
     from rules.props import c02
     c02.c02a(prog, R, rid="C15.c")
+    # Choice::Drop(ids) removes exactly those ids from the version (shared with C19.e)
+    from rules.props import c19
+    c19.c19e(prog, R, rid="C15.d")
 
 
 def c15a(prog, R):
